@@ -12,6 +12,8 @@
 #include <parmcb/parmcb.hpp>
 #include <parmcb/detail/cycles.hpp>
 #include <parmcb/detail/fvs.hpp>
+#include <parmcb/detail/approx_spanner.hpp>
+#include <parmcb/parmcb_approx_sva_signed.hpp>
 #include "../symx/oracle.hpp"
 
 typedef std::map<std::string, std::string> Case;
@@ -215,6 +217,54 @@ static void run(const Case &c) {
           << ",\"fvs\":[";
         for (size_t i = 0; i < f.size(); i++) o << (i ? "," : "") << f[i];
         o << "]";
+    } else if (what == "spanner") {
+#ifdef PARMCB_VERIF
+        std::size_t k = (std::size_t) atol(c.at("k").c_str());
+        typedef std::back_insert_iterator<std::list<std::list<Edge>>> Out;
+        typedef parmcb::detail::mcb_sva_signed<Graph, WeightMap, Out> Exact;
+        parmcb::detail::BaseApproxSpannerAlgorithm<Graph, WeightMap, Exact, false> algo(g, wm, boost::get(boost::vertex_index, g), k);
+        const Graph &sp = algo.verif_spanner();
+        const auto &emap = algo.verif_edge_spanner_to_g();
+        auto spw = boost::get(boost::edge_weight, sp);
+        std::vector<int> retained;
+        bool weights_ok = true, endpoints_ok = true;
+        for (auto se : boost::make_iterator_range(boost::edges(sp))) {
+            auto it = emap.find(se);
+            int i = it == emap.end() ? -1 : edge_index(eidx, it->second);
+            if (i < 0) { endpoints_ok = false; continue; }
+            retained.push_back(i);
+            if (boost::get(spw, se) != w[i]) weights_ok = false;
+            int a = (int) boost::source(se, sp), b = (int) boost::target(se, sp);
+            if (!((a == t.edges[i].first && b == t.edges[i].second) || (a == t.edges[i].second && b == t.edges[i].first))) endpoints_ok = false;
+        }
+        std::sort(retained.begin(), retained.end());
+        o << ",\"retained\":[";
+        for (size_t j = 0; j < retained.size(); j++) o << (j ? "," : "") << retained[j];
+        o << "],\"dropped\":" << algo.verif_non_spanner_edges().size() << ",\"weights_ok\":" << (weights_ok ? "true" : "false")
+          << ",\"endpoints_ok\":" << (endpoints_ok ? "true" : "false");
+        // girth and stretch witnesses, independently
+        orc::Topo rt;
+        rt.n = n;
+        for (int i : retained) rt.edges.push_back(t.edges[i]);
+        bool girth_ok = true;
+        for (auto cm : orc::all_simple_cycles(rt)) if ((std::size_t) __builtin_popcountll(cm) <= 2 * k) girth_ok = false;
+        bool stretch_ok = true;
+        std::set<int> rset(retained.begin(), retained.end());
+        for (int i = 0; i < t.m(); i++) if (!rset.count(i)) {
+            bool found = false;
+            for (auto pm : orc::all_simple_paths(rt, t.edges[i].first, t.edges[i].second)) {
+                if ((std::size_t) __builtin_popcountll(pm) > 2 * k - 1) continue;
+                bool light = true;
+                for (int j = 0; j < rt.m(); j++) if ((pm >> j & 1) && w[retained[j]] > w[i]) light = false;
+                if (light) found = true;
+            }
+            if (!found) stretch_ok = false;
+        }
+        o << ",\"girth_ok\":" << (girth_ok ? "true" : "false") << ",\"stretch_ok\":" << (stretch_ok ? "true" : "false")
+          << ",\"partition_ok\":" << ((int) retained.size() + (int) algo.verif_non_spanner_edges().size() == t.m() ? "true" : "false");
+#else
+        o << ",\"error\":\"built without PARMCB_VERIF\"";
+#endif
     } else if (what == "valid") {
         o << ",\"has_loops\":" << (parmcb::has_loops(g) ? "true" : "false") << ",\"has_multiple_edges\":" << (parmcb::has_multiple_edges(g) ? "true" : "false")
           << ",\"has_non_positive_weights\":" << (parmcb::has_non_positive_weights(g, wm) ? "true" : "false");
